@@ -65,6 +65,9 @@ namespace igris
 
         static_vector &operator=(static_vector &&other)
         {
+            if (this == &other)
+                return *this;
+            clear();
             m_size = other.m_size;
             for (std::size_t pos = 0; pos < m_size; ++pos)
             {
